@@ -16,7 +16,7 @@ GATES = ['wf.main.beforeKickoff', 'wf.main.beforeSelect', 'wf.handler.beforeLock
 
 
 # the random multi-site mode leaves out the gates of the known in-flight-notification window so that whatever it finds is new
-MULTI_GATES = [g for g in GATES if g not in ('wf.handler.beforeLock', 'wf.failure.beforeLock')]
+MULTI_GATES = list(GATES)      # (the two handler gates used to be left out: they were the window of a known finding, repaired in 47905c3)
 
 
 def shapes(rng):
